@@ -16,6 +16,8 @@
 package main
 
 import (
+	"time"
+	"sync"
 	"bytes"
 	"context"
 	"crypto/aes"
@@ -933,6 +935,120 @@ func (g *gen) seqCases(r *vc.Rng, keys [][]byte, reps int, withForged bool) {
 }
 
 // ---------------------------------------------------------------------------------------------
+// C04: the session's key changes while the reader waits
+
+type lockedInformator struct {
+	mu  sync.Mutex
+	key []byte
+}
+
+func (i *lockedInformator) GetSessionID() int64  { return 0 }
+func (i *lockedInformator) GetSeqNo() int32      { return 0 }
+func (i *lockedInformator) GetServerSalt() int64 { return 0 }
+func (i *lockedInformator) GetAuthKey() []byte {
+	i.mu.Lock()
+	defer i.mu.Unlock()
+	return i.key
+}
+func (i *lockedInformator) set(k []byte) { i.mu.Lock(); i.key = k; i.mu.Unlock() }
+
+// rekeyCases: transport.ReadMsg is called while the session holds key k1 and blocks in the socket; the session's key is
+// dropped (an abandoned key exchange) or replaced by k2; THEN a packet arrives.  What decides is the key the session
+// holds when the packet is there: a packet sealed under k1 is refused, one sealed under the new key is opened.  Each
+// case is also given to the model as a plain dispatch under the key in force at arrival.
+func (g *gen) rekeyCases(r *vc.Rng, keys [][]byte) {
+	for ci, c := range []struct {
+		what     string
+		k1, k2   []byte
+		sealWith int // 1: the old key, 2: the new one
+	}{
+		{"key dropped while the reader waits, packet under the old key", keys[0], nil, 1},
+		{"key replaced while the reader waits, packet under the old key", keys[0], keys[1%len(keys)], 1},
+		{"key replaced while the reader waits, packet under the new key", keys[0], keys[1%len(keys)], 2},
+		{"key installed while the reader waits (none before), packet under it", nil, keys[0], 2},
+		{"key unchanged (control)", keys[0], keys[0], 1},
+	} {
+		inf := &lockedInformator{key: c.k1}
+		ln, err := net.Listen("tcp", "127.0.0.1:0")
+		fatal(err, "listen on loopback")
+		ch := make(chan net.Conn, 1)
+		go func() {
+			cn, err := ln.Accept()
+			if err != nil {
+				cn = nil
+			}
+			ch <- cn
+		}()
+		t, err := transport.NewTransport(inf, transport.TCPConnConfig{Ctx: context.Background(), Host: ln.Addr().String()}, mode.Intermediate)
+		fatal(err, "transport.NewTransport")
+		srv := <-ch
+		if srv == nil {
+			fatal(fmt.Errorf("no connection"), "accept")
+		}
+		ann := make([]byte, 4)
+		_, err = io.ReadFull(srv, ann)
+		fatal(err, "mode announcement")
+		ln.Close()
+		type res struct {
+			msg messages.Common
+			err error
+			p   bool
+		}
+		done := make(chan res, 1)
+		go func() {
+			var x res
+			x.p, _ = vc.Catch(func() { x.msg, x.err = t.ReadMsg() })
+			done <- x
+		}()
+		time.Sleep(60 * time.Millisecond) // the reader is in its blocking read by now (it has nothing to read)
+		inf.set(c.k2)
+		sealKey := c.k1
+		if c.sealWith == 2 {
+			sealKey = c.k2
+		}
+		f := randFields(r, 40+8*ci, true)
+		pkt := refSeal(false, sealKey, f, padFor(r, 40+8*ci))
+		_, err = srv.Write(cat(le32(uint32(len(pkt))), pkt))
+		fatal(err, "write frame")
+		impl := "hang"
+		select {
+		case x := <-done:
+			switch {
+			case x.p:
+				impl = "P"
+			case x.err != nil || x.msg == nil:
+				impl = "E"
+			default:
+				kind := "00"
+				if _, ok := x.msg.(*messages.Encrypted); ok {
+					kind = "01"
+				}
+				impl = "O:" + kind + "," + vc.Hex(le64(uint64(x.msg.GetMsgID()))) + "," + vc.Hex(x.msg.GetMsg())
+			}
+		case <-time.After(5 * time.Second):
+		}
+		srv.Close()
+		now := c.k2
+		accept := now != nil && bytes.Equal(now, sealKey)
+		direct := "ok"
+		switch {
+		case impl == "P":
+			direct = "bad:panic"
+		case impl == "hang":
+			direct = "bad:ReadMsg does not return"
+		case !accept && impl != "E":
+			direct = "bad:a packet sealed under a key the session no longer holds was opened"
+		case accept && impl != "O:01,"+vc.Hex(le64(f.msgid))+","+vc.Hex(f.body):
+			direct = "bad:valid packet under the session's current key not opened to the sealed fields"
+		}
+		id := g.id("rekey")
+		req := []string{"disp", id, vc.Hex(now), vc.Hex(pkt)}
+		g.cases.Line(req...)
+		g.impl.Line(append([]string{id, "model", impl, direct, "rekey: " + c.what}, req...)...)
+	}
+}
+
+// ---------------------------------------------------------------------------------------------
 // C04: fault enumeration
 
 // direct oracle for a damaged packet: must be refused (not accepted, not a panic)
@@ -1413,6 +1529,7 @@ func genC04(tier string, g *gen) {
 	}
 	g.parityCases(r, keys, map[bool]int{false: 1, true: 8}[thorough])
 	g.seqCases(r, keys, map[bool]int{false: 4, true: 24}[thorough], true)
+	g.rekeyCases(r, keys)
 	// near and above 2^16 bytes
 	g.c04Big(r, keys[1], 65536-56-3, map[bool]int{false: 3, true: 80}[thorough])
 	g.c04Big(r, keys[0], 70001, map[bool]int{false: 1, true: 80}[thorough])
